@@ -45,6 +45,7 @@ fn main() {
     let res = std::panic::catch_unwind(std::panic::AssertUnwindSafe(|| match prop.as_str() {
         "C15" => props::c15::run(&mut ctx, &mut report),
         "C21" => props::c21::run(&mut ctx, &mut report),
+        "C17" => props::c17::run(&mut ctx, &mut report),
         "C28" => props::c28::run(&mut ctx, &mut report),
         "C22" => props::c22::run(&mut ctx, &mut report),
         "C26" => props::c26::run(&mut ctx, &mut report),
